@@ -94,6 +94,7 @@ fn main() {
     match comp.as_str() {
         "c01" => c01::run(&a, &mut out),
         "c08" => c01::run_c08(&a, &mut out),
+        "c11" => c01::run_c11(&a, &mut out),
         "c02" => c03::run(&a, &mut out, true),
         "c03" => c03::run(&a, &mut out, false),
         "c05" => c05::run(&a, &mut out),
